@@ -150,3 +150,43 @@ Section Players.
     intros Hi HU j Hj. cbn [fst snd]. split; [intros i Hik; now apply HU|]. now apply complete_secret_column.
   Qed.
 End Players.
+
+(* ---- the announced bits are arbitrary integers: only their parity enters TMCG_TypeOfCard ---------------------------- *)
+Lemma type_of_card_parity (k w : nat) (B B' : matrix) :
+  (forall i j, (i < k)%nat -> (j < w)%nat -> Z.odd (B i j) = Z.odd (B' i j)) -> type_of_card k w B = type_of_card k w B'.
+Proof.
+  intros H. unfold type_of_card. apply type_sum_ext. intros j Hj. apply xor_upto_ext. intros i Hi. now apply H.
+Qed.
+
+Section PlayersAnyBits.
+  Variable k w : nat.
+  Variables km ky : nat -> Z.
+  Variable nqr : nat -> Z -> bool.
+  Variable J : nat -> Z -> Prop.
+  Variable U : nat -> Z -> Prop.
+  Hypothesis J_one : forall i, J i 1.
+  Hypothesis J_y : forall i, J i (ky i).
+  Hypothesis J_sq : forall i z r, J i z -> U i r -> J i ((((r * r) mod km i) * z) mod km i).
+  Hypothesis J_mul : forall i z, J i z -> J i ((z * ky i) mod km i).
+  Hypothesis N_one : forall i, nqr i 1 = false.
+  Hypothesis N_y : forall i, nqr i (ky i) = true.
+  Hypothesis N_sq : forall i z r, J i z -> U i r -> nqr i ((((r * r) mod km i) * z) mod km i) = nqr i z.
+  Hypothesis N_mul : forall i z, J i z -> nqr i ((z * ky i) mod km i) = negb (nqr i z).
+  Hypothesis k_pos : (0 < k)%nat.
+
+  (* whatever integers the players announce (0/1, 2, -3, 2^64 ...): as long as every announced value has the parity of the
+     residuosity it was verified for -- which is what TMCG_VerifyCardSecret establishes, selecting the proof by parity --
+     the card opens to T *)
+  Theorem tmcg_open_any_bits (T : Z) (chain : list (matrix * matrix)) (B : matrix) : 0 <= T < 2 ^ Z.of_nat w ->
+    Forall (good_secret k w U) chain ->
+    (forall i j, (i < k)%nat -> (j < w)%nat ->
+       Z.odd (B i j) = nqr i (mask_chain km ky (open_card_qr ky T) chain i j)) ->
+    type_of_card k w B = T.
+  Proof.
+    intros HT Hs HB.
+    rewrite (type_of_card_parity k w B (self_bits nqr (mask_chain km ky (open_card_qr ky T) chain))).
+    - apply (tmcg_open_ok k w km ky nqr J U); assumption.
+    - intros i j Hi Hj. rewrite HB by assumption. unfold self_bits.
+      destruct (nqr i (mask_chain km ky (open_card_qr ky T) chain i j)); reflexivity.
+  Qed.
+End PlayersAnyBits.
